@@ -371,7 +371,19 @@ var c02PanicVals = []c02pv{
 	{name: "runtime error (integer divide by zero)", raise: func() { c02Zero = 7 / c02Zero }, msg: "integer divide by zero"},
 	{name: "runtime error (failed type assertion)", raise: func() { c02Zero = c02AnyStr.(int) }, msg: "interface conversion: interface {} is string, not int"},
 	{name: "custom error type", v: c02customErr{code: 3}},
+	{name: "error that is itself a captured panic (Panic and Stack methods)", v: c02Captured},
+	{name: "user error type with Panic and Stack methods", v: &c02fakeCaptured{}},
 }
+
+// c02Captured is the error of a Try that failed because of an earlier panic: throwing it again (failed.Get()) is a
+// new panic whose value is this error object - that is what the resulting Failure has to expose.
+var c02Captured = try.Of(func() int { panic("an earlier, inner panic") }).Failed().Get()
+
+type c02fakeCaptured struct{}
+
+func (*c02fakeCaptured) Error() string { return "looks like a captured panic" }
+func (*c02fakeCaptured) Panic() any    { return "not the value that was thrown" }
+func (*c02fakeCaptured) Stack() []byte { return nil }
 
 type c02customErr struct{ code int }
 
